@@ -111,6 +111,14 @@ func (e *Engine) forwardCalls(start ssa.Value) (map[string]bool, map[string][]ss
 				push(x)
 			case *ssa.Slice:
 				push(x)
+			case *ssa.IndexAddr:
+				if x.X == v {
+					push(x) // an element of the slice
+				}
+			case *ssa.Index:
+				if x.X == v {
+					push(x)
+				}
 			case *ssa.MakeClosure:
 				if f, ok := x.Fn.(*ssa.Function); ok {
 					for i, b := range x.Bindings {
@@ -171,6 +179,38 @@ func (e *Engine) forwardCalls(start ssa.Value) (map[string]bool, map[string][]ss
 				}
 				out[name] = true
 				calls[name] = append(calls[name], x)
+				// a closure called directly, or handed to a slices/maps higher-order helper together with the value:
+				// the flow continues at the closure's parameter
+				{
+					args := x.Common().Args
+					closureOf := func(v ssa.Value) *ssa.Function {
+						if mc, ok := unwrap(v).(*ssa.MakeClosure); ok {
+							f, _ := mc.Fn.(*ssa.Function)
+							return f
+						}
+						if f, ok := unwrap(v).(*ssa.Function); ok {
+							return f
+						}
+						return nil
+					}
+					if cf := closureOf(x.Common().Value); cf != nil && !x.Common().IsInvoke() {
+						for i, a := range args {
+							if a == v && i < len(cf.Params) {
+								enter(cf.Params[i], x)
+							}
+						}
+					}
+					if g := staticCallee(x); g != nil && canon(g).Pkg != nil {
+						switch canon(g).Pkg.Pkg.Path() {
+						case "slices", "maps":
+							if len(args) >= 2 && args[0] == v {
+								if cf := closureOf(args[1]); cf != nil && len(cf.Params) >= 1 {
+									enter(cf.Params[len(cf.Params)-1], x)
+								}
+							}
+						}
+					}
+				}
 				// into a module function with a body: the flow continues at the matching parameter
 				if g := staticCallee(x); g != nil && len(g.Blocks) > 0 && inModule(pkgOf(g)) {
 					for i, a := range x.Common().Args {
